@@ -378,6 +378,9 @@ def _evidence(pid, tier, seed, unit, verus_results, kani_result, violations, und
             samples.append(f"verus {b}")
     bounded_units = []
     kani_info = []
+    # harnesses that exist in the unit but are not part of this tier (thorough-only, or experimental = never registered)
+    not_run = [{"harness": h.name, "tier": getattr(h, "tier", "quick"), "kind": h.kind, "bound": h.bound, "covers": h.covers}
+               for h in (_all_harnesses(unit) if unit is not None else []) if not _in_tier(h, tier)]
     if kani_result is not None:
         for name, hr in kani_result.harnesses.items():
             h = next((x for x in _all_harnesses(unit) if x.name == name), None)
@@ -440,6 +443,7 @@ def _evidence(pid, tier, seed, unit, verus_results, kani_result, violations, und
             "verus": verus_info,
             "kani": kani_info,
             "bounded_units": bounded_units,
+            "harnesses_not_run_in_this_tier": not_run,
             "solver_time_s": round(smt_s, 2),
             "extraction_drops": sorted(set(dropped)),
             "undecided_clauses": unit.undecided_clauses if unit else [],
